@@ -147,3 +147,57 @@ def c19_family(tier):
             s.append({"op": "restart"})
             out.append(s)
     return out
+
+
+def c19_fork_family(base, tier="quick"):
+    """Probe executions in every block from base+2 to base+9 (the activation height of the configuration lies inside), as an
+    inscription call and as a signed transaction; variants: a signed transaction parked below the activation height and drained
+    at / above it; commits, a restart and a reorg back across the activation height followed by regrowth."""
+    out = []
+
+    def call(b, idx, tag):
+        return {"op": "tx", "via": "call", "from": "s1", "to": "c_s1_0", "ckind": "NULL", "ops": [], "lc": {"fn": "none"}, "insc": "fc%s%d" % (tag, b),
+                "idx": idx, "hash": "h%d" % (200 + b - base), "ts": 100 + b - base, "gas": "ample", "txid": "x%d" % (300 + b - base), "enc": "hex"}
+
+    def transact(b, idx, nonce, tag):
+        return {"op": "transact", "signer": "k1", "nonce": nonce, "to": "c_s1_0", "ckind": "NULL", "ops": [], "chain": "own", "insc": "ft%s%d_%d" % (tag, b, nonce),
+                "idx": idx, "hash": "h%d" % (200 + b - base), "ts": 100 + b - base, "txid": "x%d" % (400 + 10 * (b - base) + nonce), "gas": "ample", "enc": "hex"}
+
+    def fin(b, count):
+        return {"op": "finalise", "ts": 100 + b - base, "hash": "h%d" % (200 + b - base), "count": count}
+
+    head = [{"op": "init", "hash": "h100", "ts": 100, "height": base},
+            {"op": "tx", "via": "deploy", "from": "s1", "to": "NULL", "ckind": "probe", "ops": [], "lc": {"fn": "none"}, "insc": "fpd", "idx": 0,
+             "hash": "h201", "ts": 101, "gas": "ample", "txid": "x301", "enc": "hex"},
+            fin(base + 1, 1)]
+    # 1. one inscription call and one signed transaction per block
+    s = list(head)
+    for k, b in enumerate(range(base + 2, base + 10)):
+        s += [call(b, 0, "a"), transact(b, 1, k, "a"), fin(b, 2)]
+    out.append(s)
+    # 2. parked at base+4 (nonce 1), drained by nonce 0 in each of the following blocks (one schedule per drain height)
+    for drain in range(base + 5, base + 9):
+        s = list(head)
+        for b in range(base + 2, base + 4):
+            s += [call(b, 0, "b"), fin(b, 1)]
+        s += [transact(base + 4, 0, 1, "b"), fin(base + 4, 0)]
+        for b in range(base + 5, drain):
+            s += [fin(b, 0)]
+        s += [transact(drain, 0, 0, "b"), fin(drain, 2), {"op": "commit"}, {"op": "restart"}, call(drain + 1, 0, "b"), fin(drain + 1, 1)]
+        out.append(s)
+    # 3. commits, a reorg back across the activation height, regrowth
+    s = list(head)
+    for b in range(base + 2, base + 9):
+        s += [call(b, 0, "c"), fin(b, 1)]
+        if b == base + 4:
+            s.append({"op": "commit"})
+    s.append({"op": "reorg", "n": base + 4})
+    for b in range(base + 5, base + 9):
+        x = call(b, 0, "d")
+        x["hash"] = "h%d" % (260 + b - base)
+        f = fin(b, 1)
+        f["hash"] = x["hash"]
+        s += [x, f]
+    s += [{"op": "commit"}, {"op": "restart"}]
+    out.append(s)
+    return out
